@@ -17,6 +17,7 @@ import traceback
 from concurrent.futures import ThreadPoolExecutor
 
 ROOT = os.path.dirname(os.path.dirname(os.path.abspath(__file__)))
+OUT = os.environ.get("VERIF_OUT", ROOT)      # evaluation of seeded changes on scratch copies writes elsewhere
 sys.path.insert(0, ROOT)
 from pyvc import contracts as C, engine, discharge, smt, solve, extract  # noqa: E402
 from pyvc.values import parse_type  # noqa: E402
@@ -189,7 +190,7 @@ def run_enum(script, tier, seed):
 
 
 def write_replay(prop, name, data):
-    d = os.path.join(ROOT, "replay", prop)
+    d = os.path.join(OUT, "replay", prop)
     os.makedirs(d, exist_ok=True)
     path = os.path.join(d, re.sub(r"[^A-Za-z0-9_.#-]", "_", name) + ".json")
     with open(path, "w") as f:
@@ -246,7 +247,7 @@ def setup():
     print("fparser:", p.stdout.strip())
     if p.returncode != 0:
         return 3
-    os.makedirs(os.path.join(ROOT, "evidence"), exist_ok=True)
+    os.makedirs(os.path.join(OUT, "evidence"), exist_ok=True)
     return 0
 
 
@@ -455,8 +456,8 @@ def run_property(prop, tier, seed, t0):
     )
     ev = dict(property_id=prop, tier=tier, seed=seed, level=level, coverage=cov, assumptions=sorted(assumptions),
               wall_s=round(wall, 2), violations=len(violations))
-    os.makedirs(os.path.join(ROOT, "evidence"), exist_ok=True)
-    with open(os.path.join(ROOT, "evidence", prop + ".json"), "w") as f:
+    os.makedirs(os.path.join(OUT, "evidence"), exist_ok=True)
+    with open(os.path.join(OUT, "evidence", prop + ".json"), "w") as f:
         json.dump(ev, f, indent=1, default=str)
 
     print("property %s tier=%s: %d/%d obligations proved, %d undecided, %d bounded runs (%d evaluations), %d enumerations, %.1fs" % (
